@@ -231,6 +231,8 @@ class Gen:
             cands = [['var', nm] for nm, kind, fl in vars_ if fl in _SUB[flavor]]
             if focus is not None and focus in _SUB[flavor]:
                 cands.append(['ctx'])
+            if focus is not None and flavor in 'inm':
+                cands.extend([['pos'], ['last']])
             if cands and self.k() < 55:
                 return _sf(self.draw, cands)
             return lit_seq(self.draw, flavor)
@@ -361,9 +363,19 @@ def direct_calls(draw, version):
            c('count', c('insert-before', c('remove', S, ia), ia, T)),
            c('reverse', c('subsequence', c('reverse', S), a)),
            ]
+    inner = ['filter', T, ['vcmp', _sf(draw, _CMP), ['pos'], _sf(draw, [['int', 2], ['last'], ['int', 1]])]]
+    out += [    # the focus must be the outer one again after an inner focus has been used
+        ['filter', S, ['and', c('exists', inner), ['vcmp', _sf(draw, _CMP), ['pos'], ia]]],
+        ['filter', S, ['or', ['vcmp', 'eq', c('count', inner), ['pos']], ['vcmp', 'eq', ['pos'], ['last']]]],
+        ['filter', S, ['seq', ['filter', c('count', inner), ['bool', False]], ['pos']]],
+    ]
     if version != '20':
         out += [c('head', S), c('tail', S), c('string-join', S), ['map', S, ['seq', ['pos'], ['last']]],
-                ['map', S, ['ctx']]]
+                ['map', S, ['ctx']],
+                ['map', S, ['seq', c('count', inner), ['pos'], ['last']]],
+                ['map', S, ['seq', ['map', T, ['pos']], ['pos'], ['last'], ['ctx']]],
+                ['map', S, ['seq', ['ctx'], ['filter', inner, ['last']], ['ctx'], ['pos']]],
+                ['map', ['map', S, ['seq', ['ctx'], ['pos']]], ['seq', ['pos'], ['last']]]]
     return out
 
 
